@@ -900,7 +900,13 @@ def validate_views():
             return False, "no protected PDF fixture"
         r = PdfReader(io.BytesIO(open(p[0], "rb").read()))
         res = r.decrypt("")
-        return bool(r.is_encrypted) and res == 0 and int(res) == 0, f"decrypt('') = {res!r} on the protected fixture"
+        try:    # ... and a constructor that is handed a password it cannot open the file with raises instead (policy P6)
+            PdfReader(io.BytesIO(open(p[0], "rb").read()), password="")
+            ctor = "returned"
+        except Exception as e:  # noqa
+            ctor = type(e).__name__
+        return bool(r.is_encrypted) and res == 0 and int(res) == 0 and ctor == "WrongPasswordError", \
+            f"decrypt('') = {res!r} on the protected fixture; PdfReader(f, password='') -> {ctor}"
     fact("pypdf-is_encrypted-and-decrypt-result-0-for-a-rejected-password", v_pdf)
     return out
 
